@@ -446,6 +446,12 @@ def custom(P, tier, seed, replay=None):
 
     sched_replay = bool(replay) and replay.get("stream") == "sched"
 
+    # 2a. every lock-boundary schedule of tiny plans (and sampled schedules of larger ones) on the instrumented copy;
+    # first, so that its deterministic replays head the list of violations
+    sched_concrete, sobs = False, []
+    if ok and (not replay or sched_replay):
+        sched_concrete, sobs = run_sched(rep, tier, seed, cmds, nm, replay=replay if sched_replay else None)
+
     # 2. stress stream under the race detector
     n = STREAM["n_quick"] if tier == "quick" else STREAM["n_thorough"]
     if not wf_ok and ok:
@@ -542,11 +548,8 @@ def custom(P, tier, seed, replay=None):
             o["stream"] = "clone/"
         obs = obs + cobs
 
-    # 2c. every lock-boundary schedule of tiny plans (and sampled schedules of larger ones) on the instrumented copy
-    if ok and (not replay or sched_replay):
-        c2, sobs = run_sched(rep, tier, seed, cmds, nm, replay=replay if sched_replay else None)
-        concrete = concrete or c2
-        obs = obs + sobs
+    obs = obs + sobs
+    concrete = concrete or sched_concrete
 
     # 3. the skeleton no longer passes the check and the stress run found nothing concrete
     if ok and not wf_ok and not concrete:
@@ -588,8 +591,10 @@ P = {
     "theorems_module": "Properties.C07",
     "theorems": ["C07_no_crash", "C07_drf", "C07_mutual_exclusion", "C07_deadlock_free", "C07_linearizable",
                  "C07_history_is_the_execution", "C07_readers_see_committed_state", "C07_real_time_order",
-                 "C07_no_lost_update", "C07_seq_spec_total", "C07_repo_safe", "C07_repo_linearizable"],
-    "streams": [STREAM],
+                 "C07_no_lost_update", "C07_seq_spec_total", "C07_repo_safe", "C07_repo_linearizable",
+                 "C07_explored_schedule_is_model_execution", "C07_explored_schedule_same_history",
+                 "C07_explored_schedule_safe"],
+    "streams": [STREAM, SCHED],
     "generators": [gen_skel],
     "custom": custom,
     "rule": "stress stream: per case a fresh REAL repository wired as in module.go (newRepository + NewRuleSetProcessor), fed "
@@ -608,7 +613,23 @@ P = {
             "goroutines, one of them a change, overlapped in time (stamps are taken outside the calls: an upper bound of real "
             "interleaving); distinct by hash of the generated plan; 5 corpus plans first.  The interleavings are chosen by the Go "
             "scheduler (seeded Gosched points / lock-step rounds only), so the observed histories differ between runs; the verdict "
-            "does not.",
+            "does not.  Stream sched (900 quick / 20000 thorough schedules, every one a case): the build replaces "
+            "repository_impl.go by its automatically instrumented copy (harness/tools/instr: sync.Mutex/RWMutex -> scheduler-aware "
+            "stand-ins of harness/sched, every read / assignment of r.dr / r.knownRules / r.index and every method call on a tree "
+            "behind r.index logged); a controller runs the goroutines of a plan one at a time and switches only where an operation "
+            "is invoked and at Lock/RLock/Unlock/RUnlock; a schedule is the list of thread ids chosen there and reproduces the "
+            "execution event for event (bin/check C07 --replay).  8 hand-written tiny plans (2 writers of different sources x 1-2 "
+            "changes + 1-2 readers after a sequential set-up: concurrent adds, update vs add, delete vs update, two-route delete "
+            "vs two lookups, colliding adds with a follow-up change, default rule, wildcards) and 8 (thorough: 60) generated tiny "
+            "plans are enumerated EXHAUSTIVELY, depth first, with sleep sets (one execution per class of executions that differ "
+            "only in the order of independent steps; the reduction is self-tested against plain enumeration in the thorough tier: "
+            "same set of outcomes); plans of the stress generator are sampled (12 schedules each: seeded random walk and PCT with "
+            "depth 3).  Per schedule Coq (Run/Eval_C07Sched.v) checks: the logged events are an execution of the interleaving "
+            "semantics for the skeleton regenerated from the same file (replay: each operation a path of its method up to "
+            "stuttering, each lock grant enabled in the model, objects loaded / cloned / published are the model's), the results are "
+            "linearizable w.r.t. the real code run sequentially (same evaluator as stress), no happens-before data race among the "
+            "logged accesses, no deadlock (re-validated: no thread of the model can move), no unlock of an unlocked mutex.  "
+            "Non-trivial = operations of different goroutines, one a change, overlap; distinct by hash of plan + schedule.",
     "anchors": ["internal/rules/repository_impl.go", "internal/x/radixtree/tree.go"],
     "trusted": [
         "harness/tools/skel (go/ast): the translation of repository_impl.go into the event skeleton (lock/unlock/defer, reads/writes "
@@ -617,8 +638,23 @@ P = {
         "field, escaping receivers, aliases, goroutines, a constructor used other than in fx.Provide ... become EUnsupported, which "
         "the Coq check rejects) and its syntactic classification of radixtree methods as receiver-mutating or not; 30 self-tests "
         "run with every check (cached by source hash); Base/Locks.v method_paths (enumeration of paths: defers at returns, loops "
-        "summarised as zero or one iteration of object accesses) is evaluated inside Coq but is not proved against Go's semantics; "
-        "nothing at run time compares the executed lock/field events with the skeleton",
+        "summarised as zero or one iteration of object accesses) is evaluated inside Coq but is not proved against Go's semantics.  "
+        "Both are now CROSS-CHECKED at run time on every explored schedule (stream sched): the events the instrumented code "
+        "really executes must replay as an execution of the skeleton semantics (theorem C07_explored_schedule_is_model_execution: "
+        "what the replay accepts is such an execution) - on the explored plans and schedules only, not for all inputs",
+        "stream sched: harness/tools/instr (go/ast, written independently of the extractor) decides syntactically what is logged: "
+        "r.f in a method of the type (read, assignment, op-assignment), method calls on r.index / on locals and parameters that "
+        "syntactically denote such a tree; an access it does not see is not checked (the replay fails if the skeleton has an event "
+        "the log lacks, and vice versa); which tree methods mutate their receiver is the extractor's table.  The comparison is up "
+        "to stuttering (a run of identical accesses by one thread counts once on both sides: loops, in-place library calls such as "
+        "slices.DeleteFunc) - lemma lmatch_normal_form.  harness/sched implements the mutexes itself under the controller (Lock needs "
+        "the mutex free, RLock no exclusive holder; writer preference of sync.RWMutex only in the thorough tier and without the "
+        "reduction); every grant is re-validated against the model by the replay.  Goroutines are switched at operation starts and "
+        "lock operations only: code between two lock operations runs atomically (Find, Clone, Add, Delete are single steps), "
+        "which is complete only for executions without data race - races are looked for by the happens-before detector hb_races "
+        "on the log (vector clocks; evaluated in Coq, its completeness not proved).  The sleep-set reduction and the independence "
+        "relation (same mutex unless both read-side, conflicting accesses, invocation vs response) are untrusted for failures "
+        "(every reported schedule replays) but trusted for exhaustiveness; self-tested against plain enumeration (thorough)",
         "the interleaving semantics of Base/Locks.v is sequentially consistent: the Go memory model is not modelled; the lockset "
         "discipline proved there is what Go's memory model requires for data-race freedom (every conflicting pair of accesses "
         "is ordered by a common mutex); the Go scheduler is only assumed to run some enabled goroutine",
@@ -648,11 +684,21 @@ P = {
                   "execution's own operations, per thread in program order with the returned logs, and respects real time. Supporting "
                   "streams: ~1500 (quick) / 20000 (thorough) concurrent histories of the real repository behind the real rule-set processor "
                   "under `go test -race` (wildcards, catch-alls, method and regex matchers, backtracking), each checked in Coq to be atomic "
-                  "w.r.t. the real code run sequentially (and, literal plans, equal to repo_apply); deep-clone check of Tree.Clone.",
+                  "w.r.t. the real code run sequentially (and, literal plans, equal to repo_apply); deep-clone check of Tree.Clone.  "
+                  "RUN-TIME TIE (stream sched): an automatically instrumented copy of the current repository_impl.go (mutexes replaced "
+                  "by scheduler-aware stand-ins, guarded accesses logged) is run under EVERY lock-boundary schedule of 16 tiny plans "
+                  "(sleep-set reduced) and sampled schedules of larger ones, 900 / 20000 schedules, each deterministic and replayable "
+                  "from its list of thread ids; Coq replays each event log through the interleaving semantics of the regenerated "
+                  "skeleton - proved: what the replay accepts is an execution of that semantics with exactly the logged invocations "
+                  "and responses, hence (wf_skel) crash-free, race-free and linearizable by the theorems above - and checks "
+                  "linearizability of the observed results, happens-before race freedom of the log and absence of deadlock per "
+                  "schedule.",
     "level_note": "PARTIAL. Proved about the skeleton semantics, not about Go: the Go memory model and scheduler are not modelled "
                   "(sequentially consistent interleavings; lockset discipline => DRF is taken to be what Go guarantees), the "
-                  "go/ast extractor and the path enumeration are trusted, Tree.Clone's deepness and panics inside tree code are "
-                  "outside the model. The sequential specification of the theorems is the skeleton itself run atomically with "
+                  "go/ast extractor and the path enumeration are not proved correct (they are cross-checked against the events the "
+                  "instrumented real code executes, on the explored plans and schedules only; the instrumenter is trusted to log "
+                  "the accesses), schedules are explored at lock-boundary granularity, Tree.Clone's deepness and panics inside tree "
+                  "code are outside the model. The sequential specification of the theorems is the skeleton itself run atomically with "
                   "uninterpreted write functions (value semantics for trees); that this coincides with the repository's functional "
                   "behaviour (repo_apply, literal paths) is observed by the stress stream, not proved.",
     "assumptions": [
@@ -660,5 +706,8 @@ P = {
         "package for the field and unexported method names and rejects the skeleton otherwise)",
         "the stress stream's schedules are whatever the Go scheduler produces on the machine; the race detector only reports races "
         "on executed interleavings",
+        "the sched stream controls the interleaving of the repository's own code only (operation starts and mutex operations); it is "
+        "exhaustive for the tiny plans it enumerates completely (the evidence says how many) up to the independence relation of the "
+        "sleep-set reduction, and a sample for the larger plans",
     ],
 }
